@@ -46,6 +46,12 @@ var nonIdemForms = []struct{ Name, Text string }{
 	{"counter-batch", "BEGIN COUNTER BATCH UPDATE ks1.c SET n = n + 1 WHERE k = '%s' APPLY BATCH"},
 	{"conditional-batch", "BEGIN BATCH INSERT INTO ks1.t (k, v) VALUES ('%s', 1) IF NOT EXISTS APPLY BATCH"},
 	{"batch-with-now", "BEGIN UNLOGGED BATCH INSERT INTO ks1.t (k, v) VALUES ('%s', 1); UPDATE ks1.t SET v = now() WHERE k = 'x' APPLY BATCH"},
+	{"now-upper-case", "INSERT INTO ks1.t (k, v) VALUES ('%s', NOW())"},
+	{"uuid-mixed-case", "INSERT INTO ks1.t (k, v) VALUES ('%s', Uuid())"},
+	{"system-upper-qualified-uuid", "UPDATE ks1.t SET v = SYSTEM.UUID() WHERE k = '%s'"},
+	{"now-as-function-argument", "UPDATE ks1.t SET v = toTimestamp(Now()) WHERE k = '%s'"},
+	{"quoted-lower-now", "INSERT INTO ks1.t (k, v) VALUES ('%s', \"now\"())"},
+	{"keywords-lower-case-lwt", "update ks1.t set v = 2 where k = '%s' if v = 1"},
 	{"unparseable-truncated", "INSERT INTO ks1.t (k, v) VALUES ('%s', "},
 	{"unparseable-unknown-statement", "TRUNCATE ks1.t_%s"},
 	{"unparseable-garbage-tail", "UPDATE ks1.t SET v = 1 WHERE k = '%s' ~~~"},
